@@ -32,7 +32,7 @@ CORR_ONLY = [
     'IndexHierarchy.__init__ un-shares it by copying the levels): the Lean Level is a value tree without object identity, so sharing is '
     'covered by the oracle only - histories start from every construction / conversion route at depth 3-4 and every view, the static '
     'source and copies taken before the growth are compared with the list-of-tuples reference after every step',
-    'label-slice and Boolean selectors of HLoc; Boolean masks at outer depths (outside the claim, compared model vs code only)',
+    'Boolean masks at outer depths of HLoc (outside the claim, compared model vs code only); step 0 in a label slice (ValueError)',
     'IndexHierarchy.loc / iloc / Frame.loc[HLoc] / Series[HLoc] (rows extracted by TypeBlocks: C03/C04) against the list-of-tuples reference',
     '_extract_iloc rebuild through _from_type_blocks (builder proved in C02; the rebuilt index is checked by the bijection oracle)',
 ]
